@@ -7,5 +7,6 @@ CONSTANTS
   MaxLen = 3
   DedupKeys = FALSE
   AssembleByArrival = FALSE
+  FoldUnsynchronised = FALSE
 INVARIANTS EqualsReference StoreIsReference ChildAtOwner
 CHECK_DEADLOCK FALSE
